@@ -436,3 +436,404 @@ Lemma ring3_payload_delivered :
   filter (fun o => match o with OUp _ _ _ _ => true | _ => false end) (trace (run 12 ring3_send))
   = [OUp 5 (ARS 1 [1]) (ALS [1]) [16; 99; 7]].
 Proof. vm_compute. reflexivity. Qed.
+
+(* ---- what leaves a node other than forwarded copies: network-layer messages and released parked packets *)
+Definition parked (n : node) (q : npdu) : Prop := exists d l, In (d, l) (pending n) /\ In q l.
+
+Lemma forward_tx : forall n i ai src p dd j d q,
+  In (Tx j d q) (forward n i ai src p dd) -> n_msg q = Some 0 /\ j <> i /\ d = LBcast.
+Proof.
+  intros n i ai src p dd j d q H. unfold forward in H.
+  dmatch H; split_in H;
+  try (apply in_map_iff in H; destruct H as [x [Hx Hin]]; inversion Hx; subst;
+       repeat split; auto; eapply other_ports_neq; eauto).
+Qed.
+
+Lemma nse_who_is_tx : forall n i ai src p w n' acts j d q,
+  nse_who_is n i ai src p w = (n', acts) -> In (Tx j d q) acts -> n_msg q <> None.
+Proof.
+  intros n i ai src p w n' acts j d q H Hin. unfold nse_who_is in H.
+  dmatch H; inversion H; subst; clear H; split_in Hin;
+  try (inversion Hin; subst; cbn; discriminate);
+  try (apply in_map_iff in Hin; destruct Hin as [x [Hx _]]; inversion Hx; subst; cbn; discriminate).
+Qed.
+
+Lemma nse_i_am_tx : forall n i ai src nets n' acts j d q,
+  nse_i_am n i ai src nets = (n', acts) -> In (Tx j d q) acts -> n_msg q <> None \/ parked n q.
+Proof.
+  intros n i ai src nets n' acts j d q H Hin. unfold nse_i_am in H.
+  destruct (release (pending (set_cache n (cache_update (rcache n) (a_net ai) src nets))) i src nets)
+    as [pe ac] eqn:Er.
+  inversion H; subst; clear H. apply in_app_or in Hin. destruct Hin as [Hin|Hin].
+  - left. destruct (is_router n); [|inversion Hin].
+    apply in_map_iff in Hin. destruct Hin as [x [Hx _]]. inversion Hx; subst. cbn. discriminate.
+  - right. destruct (release_spec _ _ _ _ _ _ Er _ Hin) as [q' [Hq [d' [l [Hl Hql]]]]].
+    inversion Hq; subst. exists d', l. split; assumption.
+Qed.
+
+Lemma process_npdu_tx : forall n i src dst p n' acts j d q,
+  process_npdu n i src dst p = (n', acts) -> In (Tx j d q) acts -> n_msg q <> None \/ parked n q.
+Proof.
+  intros n i src dst p n' acts j d q H Hin. unfold process_npdu in H.
+  assert (Hf : forall nx ai dd, In (Tx j d q) (forward nx i ai src p dd) -> n_msg q <> None \/ parked n q).
+  { intros nx ai dd Hx. left. apply forward_tx in Hx. destruct Hx as [Hx _]. rewrite Hx. discriminate. }
+  assert (Hft : forall nx ai fw,
+     In (Tx j d q) match n_dadr p with Some dd => if fw : bool then forward nx i ai src p dd else [] | None => [] end ->
+     n_msg q <> None \/ parked n q).
+  { intros nx ai fw Hx. destruct (n_dadr p); [|inversion Hx]. destruct fw; [|inversion Hx]. eapply Hf; eauto. }
+  destruct (nth_adapter n i) as [ai|] eqn:Ea; [|inversion H; subst; split_in Hin].
+  destruct (negb (modelled_config n)); [inversion H; subst; split_in Hin|].
+  match type of H with (if ?s then _ else _) = _ => destruct s end; [inversion H; subst; split_in Hin|].
+  match type of H with context [match ?dec with Err _ => _ | Ok _ => _ end] => destruct dec as [[[pl fw]|]|e] end;
+    [| inversion H; subst; split_in Hin | inversion H; subst; split_in Hin].
+  destruct (n_msg p) as [t|] eqn:Em.
+  - destruct pl; [|inversion H; subst; clear H; eapply Hft; eauto].
+    destruct (negb (known_msg t)); [inversion H; subst; split_in Hin|].
+    destruct (t =? 0).
+    + destruct (dec_who_is (n_data p)) as [w|e]; [|inversion H; subst; split_in Hin].
+      match type of H with context [nse_who_is ?a ?b ?c ?dd ?e ?f] => destruct (nse_who_is a b c dd e f) as [n2 ac] eqn:Ew end.
+      inversion H; subst; clear H. apply in_app_or in Hin. destruct Hin as [Hin|Hin]; [|eapply Hft; eauto].
+      left. eapply nse_who_is_tx; eauto.
+    + destruct (t =? 1); [|inversion H; subst; split_in Hin].
+      destruct (dec_i_am (n_data p)) as [nets|e]; [|inversion H; subst; split_in Hin].
+      match type of H with context [nse_i_am ?a ?b ?c ?dd ?e] => destruct (nse_i_am a b c dd e) as [n2 ac] eqn:Ew end.
+      inversion H; subst; clear H. apply in_app_or in Hin. destruct Hin as [Hin|Hin]; [|eapply Hft; eauto].
+      destruct (nse_i_am_tx _ _ _ _ _ _ _ _ _ _ Ew Hin) as [Hx|Hx]; [left; assumption|right].
+      destruct Hx as [d' [l [Hl Hq]]]. exists d', l. split; [|assumption].
+      destruct (n_sadr p) as [[sn sm]|]; exact Hl.
+  - match type of H with (if ?c then _ else _) = _ => destruct c end.
+    + destruct (negb (apdu_ok (n_data p))); [inversion H; subst; split_in Hin|].
+      inversion H; subst; clear H. destruct Hin as [Hin|Hin]; [discriminate|]. eapply Hft; eauto.
+    + inversion H; subst; clear H. eapply Hft; eauto.
+Qed.
+
+(* ---- at most one delivery per arriving frame *)
+Definition count_up (l : list action) : nat := length (filter is_up l).
+
+Lemma count_up_app : forall a b, count_up (a ++ b) = (count_up a + count_up b)%nat.
+Proof. intros. unfold count_up. rewrite filter_app, app_length. reflexivity. Qed.
+
+Lemma count_up_none : forall l, (forall s d x, ~ In (Up s d x) l) -> count_up l = 0%nat.
+Proof.
+  induction l as [|a l IH]; intro H; [reflexivity|].
+  assert (Hl : forall s d x, ~ In (Up s d x) l) by (intros s d x Hin; eapply H; right; eauto).
+  unfold count_up in *. cbn [filter]. destruct a; cbn [is_up]; try (apply IH; exact Hl).
+  exfalso. eapply H. left. reflexivity.
+Qed.
+
+Lemma count_up_tail : forall nx i ai src p fw,
+  count_up match n_dadr p with Some dd => if fw : bool then forward nx i ai src p dd else [] | None => [] end = 0%nat.
+Proof.
+  intros. apply count_up_none. intros s d x H.
+  destruct (n_dadr p); [|inversion H]. destruct fw; [|inversion H]. eapply forward_no_up; eauto.
+Qed.
+
+Lemma process_npdu_up_once : forall n i src dst p n' acts,
+  process_npdu n i src dst p = (n', acts) -> (count_up acts <= 1)%nat.
+Proof.
+  intros n i src dst p n' acts H. unfold process_npdu in H.
+  destruct (nth_adapter n i) as [ai|] eqn:Ea; [|inversion H; subst; cbn; lia].
+  destruct (negb (modelled_config n)); [inversion H; subst; cbn; lia|].
+  match type of H with (if ?s then _ else _) = _ => destruct s end; [inversion H; subst; cbn; lia|].
+  match type of H with context [match ?dec with Err _ => _ | Ok _ => _ end] => destruct dec as [[[pl fw]|]|e] end;
+    [| inversion H; subst; cbn; lia | inversion H; subst; cbn; lia].
+  destruct (n_msg p) as [t|] eqn:Em.
+  - destruct pl; [|inversion H; subst; clear H; rewrite count_up_tail; lia].
+    destruct (negb (known_msg t)); [inversion H; subst; cbn; lia|].
+    destruct (t =? 0).
+    + destruct (dec_who_is (n_data p)) as [w|e]; [|inversion H; subst; cbn; lia].
+      match type of H with context [nse_who_is ?a ?b ?c ?dd ?e ?f] => destruct (nse_who_is a b c dd e f) as [n2 ac] eqn:Ew end.
+      destruct (nse_who_is_spec _ _ _ _ _ _ _ _ Ew) as (_ & _ & Hnu). inversion H; subst; clear H.
+      rewrite count_up_app, count_up_tail, (count_up_none _ Hnu). lia.
+    + destruct (t =? 1); [|inversion H; subst; cbn; lia].
+      destruct (dec_i_am (n_data p)) as [nets|e]; [|inversion H; subst; cbn; lia].
+      match type of H with context [nse_i_am ?a ?b ?c ?dd ?e] => destruct (nse_i_am a b c dd e) as [n2 ac] eqn:Ew end.
+      destruct (nse_i_am_spec _ _ _ _ _ _ _ Ew) as (_ & _ & _ & _ & Hnu). inversion H; subst; clear H.
+      rewrite count_up_app, count_up_tail, (count_up_none _ Hnu). lia.
+  - match type of H with (if ?c then _ else _) = _ => destruct c end.
+    + destruct (negb (apdu_ok (n_data p))); [inversion H; subst; cbn; lia|].
+      inversion H; subst; clear H.
+      change (count_up (Up ?a ?b ?c :: ?r)) with (S (count_up r)).
+      rewrite count_up_tail. lia.
+    + inversion H; subst; clear H. rewrite count_up_tail; lia.
+Qed.
+
+(* ---- parked packets *)
+Definition pending_wf (p : list (N * list npdu)) : Prop := NoDup (map fst p).
+
+Lemma pending_add_keys : forall p d x k, In k (map fst (pending_add p d x)) <-> k = d \/ In k (map fst p).
+Proof.
+  induction p as [|[k0 l0] r IH]; cbn; intros d x k.
+  - split; [intros [H|[]]; auto|intros [H|[]]; auto].
+  - destruct (N.eqb_spec k0 d); cbn.
+    + subst. split; [intros [H|H]; auto|intros [H|[H|H]]; auto].
+    + rewrite IH. split; [intros [H|[H|H]]; auto|intros [H|[H|H]]; auto].
+Qed.
+
+Lemma pending_add_wf : forall p d x, pending_wf p -> pending_wf (pending_add p d x).
+Proof.
+  unfold pending_wf. induction p as [|[k0 l0] r IH]; cbn; intros d x H.
+  - constructor; [intros []|constructor].
+  - inversion H; subst. destruct (N.eqb_spec k0 d); cbn.
+    + constructor; assumption.
+    + constructor; [|apply IH; assumption].
+      intro Hin. apply pending_add_keys in Hin. destruct Hin as [Hin|Hin]; [congruence|contradiction].
+Qed.
+
+Lemma pending_del_keys : forall p d k, In k (map fst (pending_del p d)) -> In k (map fst p).
+Proof.
+  induction p as [|[k0 l0] r IH]; cbn; intros d k H; [assumption|].
+  destruct (k0 =? d); cbn in *; [right; assumption|].
+  destruct H as [H|H]; [left; assumption|right; eapply IH; eauto].
+Qed.
+
+Lemma pending_del_wf : forall p d, pending_wf p -> pending_wf (pending_del p d).
+Proof.
+  unfold pending_wf. induction p as [|[k0 l0] r IH]; cbn; intros d H; [constructor|].
+  inversion H; subst. destruct (k0 =? d); cbn; [assumption|].
+  constructor; [|apply IH; assumption]. intro Hin. apply pending_del_keys in Hin. contradiction.
+Qed.
+
+Lemma pending_get_none : forall p d, ~ In d (map fst p) -> pending_get p d = None.
+Proof.
+  induction p as [|[k0 l0] r IH]; cbn; intros d H; [reflexivity|].
+  destruct (N.eqb_spec k0 d); [exfalso; apply H; left; assumption|].
+  apply IH. intro Hin. apply H. right. assumption.
+Qed.
+
+Lemma pending_get_del_same : forall p d, pending_wf p -> pending_get (pending_del p d) d = None.
+Proof.
+  unfold pending_wf. induction p as [|[k0 l0] r IH]; cbn; intros d H; [reflexivity|].
+  inversion H; subst. destruct (N.eqb_spec k0 d); cbn.
+  - subst. apply pending_get_none. assumption.
+  - destruct (N.eqb_spec k0 d); [contradiction|]. apply IH. assumption.
+Qed.
+
+Lemma release_wf : forall nets pend i src pend' acts,
+  release pend i src nets = (pend', acts) -> pending_wf pend -> pending_wf pend'.
+Proof.
+  induction nets as [|d r IH]; intros pend i src pend' acts H Hwf; cbn [release] in H.
+  - inversion H; subst. assumption.
+  - destruct (pending_get pend d) as [l|].
+    + destruct (release (pending_del pend d) i src r) as [pe ac] eqn:Er. inversion H; subst.
+      eapply IH; eauto. apply pending_del_wf. assumption.
+    + eapply IH; eauto.
+Qed.
+
+Lemma dec_i_am_one : forall d, d < 65536 -> dec_i_am (put_short d) = Ok [d].
+Proof.
+  intros d Hd. unfold put_short, be2. cbn [dec_i_am bind]. f_equal. f_equal. lia.
+Qed.
+
+(* an I-Am-Router-To-Network for network d releases the packets parked for d: each exactly once, in order, to
+   the announcing router on the adapter the announcement came in on; nothing stays parked for d *)
+Lemma i_am_releases_parked : forall n i ai src dst d l n' acts,
+  nth_adapter n i = Some ai -> modelled_config n = true -> d < 65536 ->
+  pending_wf (pending n) -> pending_get (pending n) d = Some l ->
+  process_npdu n i src dst (i_am [d]) = (n', acts) ->
+  acts = (if is_router n then map (fun j => Tx j LBcast (i_am [d])) (other_ports n i) else [])
+         ++ map (fun q => Tx i (LStation src) q) l
+  /\ pending_get (pending n') d = None /\ pending_wf (pending n').
+Proof.
+  intros n i ai src dst d l n' acts Ha Hm Hd Hwf Hg H.
+  unfold process_npdu in H. rewrite Ha, Hm in H. cbn [negb i_am n_sadr n_dadr n_msg n_data] in H.
+  rewrite orb_true_r in H. cbn [known_msg N.leb N.compare negb orb] in H.
+  change (1 =? 0) with false in H. change (1 =? 1) with true in H. cbv iota in H.
+  change (flat_map put_short [d]) with (put_short d ++ []) in H. rewrite app_nil_r in H.
+  rewrite (dec_i_am_one d Hd) in H.
+  unfold nse_i_am in H. cbn [release pending set_cache] in H. rewrite Hg in H.
+  cbn [release] in H. inversion H; subst; clear H. cbn [pending set_pending].
+  rewrite !app_nil_r. repeat split.
+  - apply pending_get_del_same. assumption.
+  - apply pending_del_wf. assumption.
+Qed.
+
+(* ---- fan-out of forwarding *)
+Lemma filter_len_le : forall {A} (f : A -> bool) l, (length (filter f l) <= length l)%nat.
+Proof. induction l as [|a l IH]; cbn; [lia|]. destruct (f a); cbn; lia. Qed.
+
+Lemma other_ports_length : forall n i, (length (other_ports n i) <= length (adapters n))%nat.
+Proof.
+  intros. unfold other_ports.
+  etransitivity; [apply filter_len_le|]. rewrite seq_length. lia.
+Qed.
+
+Lemma forward_fanout : forall n i ai src p dd, (length (forward n i ai src p dd) <= S (length (adapters n)))%nat.
+Proof.
+  intros. unfold forward.
+  pose proof (other_ports_length n i) as Ho.
+  repeat match goal with
+  | |- context [match ?x with _ => _ end] => destruct x eqn:?
+  | |- context [if ?x then _ else _] => destruct x eqn:?
+  end; cbn [length]; rewrite ?map_length; lia.
+Qed.
+
+(* ---- the set of adapters never changes *)
+Lemma process_npdu_adapters : forall n i src dst p n' acts,
+  process_npdu n i src dst p = (n', acts) -> adapters n' = adapters n.
+Proof.
+  intros n i src dst p n' acts H. unfold process_npdu in H.
+  destruct (nth_adapter n i) as [ai|] eqn:Ea; [|inversion H; subst; reflexivity].
+  destruct (negb (modelled_config n)); [inversion H; subst; reflexivity|].
+  match type of H with (if ?s then _ else _) = _ => destruct s end; [inversion H; subst; reflexivity|].
+  assert (Hn1 : adapters match n_sadr p with
+                         | Some (snet, _) => set_cache n (cache_update (rcache n) (a_net ai) src [snet])
+                         | None => n end = adapters n) by (destruct (n_sadr p) as [[? ?]|]; reflexivity).
+  match type of H with context [match ?dec with Err _ => _ | Ok _ => _ end] => destruct dec as [[[pl fw]|]|e] end;
+    [| inversion H; subst; exact Hn1 | inversion H; subst; exact Hn1].
+  destruct (n_msg p) as [t|] eqn:Em.
+  - destruct pl; [|inversion H; subst; exact Hn1].
+    destruct (negb (known_msg t)); [inversion H; subst; exact Hn1|].
+    destruct (t =? 0).
+    + destruct (dec_who_is (n_data p)) as [w|e]; [|inversion H; subst; exact Hn1].
+      match type of H with context [nse_who_is ?a ?b ?c ?dd ?e ?f] => destruct (nse_who_is a b c dd e f) as [n2 ac] eqn:Ew end.
+      destruct (nse_who_is_spec _ _ _ _ _ _ _ _ Ew) as (Hn & _). inversion H; subst. exact Hn1.
+    + destruct (t =? 1); [|inversion H; subst; exact Hn1].
+      destruct (dec_i_am (n_data p)) as [nets|e]; [|inversion H; subst; exact Hn1].
+      match type of H with context [nse_i_am ?a ?b ?c ?dd ?e] => destruct (nse_i_am a b c dd e) as [n2 ac] eqn:Ew end.
+      destruct (nse_i_am_spec _ _ _ _ _ _ _ Ew) as (Hn & _). inversion H; subst. rewrite Hn. exact Hn1.
+  - match type of H with (if ?c then _ else _) = _ => destruct c end.
+    + destruct (negb (apdu_ok (n_data p))); inversion H; subst; exact Hn1.
+    + inversion H; subst; exact Hn1.
+Qed.
+
+Lemma find_path_from_sound : forall l k c dnet j m,
+  find_path_from l k c dnet = Some (j, m) ->
+  exists a, nth_error l (j - k) = Some a /\ (k <= j)%nat /\ cache_get c (a_net a) dnet = Some m.
+Proof.
+  induction l as [|a r IH]; cbn; intros k c dnet j m H; [discriminate|].
+  destruct (cache_get c (a_net a) dnet) as [m'|] eqn:E.
+  - inversion H; subst. exists a. rewrite Nat.sub_diag. cbn. auto.
+  - apply IH in H. destruct H as [a' [H1 [H2 H3]]]. exists a'.
+    replace (j - k)%nat with (S (j - S k)) by lia. cbn. split; [assumption|split; [lia|assumption]].
+Qed.
+
+Lemma find_path_sound : forall n dnet j m, find_path n dnet = Some (j, m) ->
+  exists a, nth_adapter n j = Some a /\ cache_get (rcache n) (a_net a) dnet = Some m.
+Proof.
+  intros n dnet j m H. apply find_path_from_sound in H. destruct H as [a [H1 [_ H3]]].
+  rewrite Nat.sub_0_r in H1. exists a. split; assumption.
+Qed.
+
+(* =================================================================== statements used by props/C06.v *)
+Lemma thm_hop_decrement : forall n i src dst p n' acts j d q,
+  process_npdu n i src dst p = (n', acts) -> In (Fwd j d q) acts ->
+  n_hop p <> 0 /\ n_hop q + 1 = n_hop p /\ n_data q = n_data p /\ n_msg q = n_msg p.
+Proof.
+  intros. destruct (process_npdu_fwd_origin _ _ _ _ _ _ _ _ _ _ H H0) as (ai & dd & _ & _ & Hf).
+  apply forward_fwd in Hf. destruct Hf as (A & B & C & D & _). repeat split; auto. lia.
+Qed.
+
+Lemma thm_no_forward_at_zero : forall n i src dst p n' acts,
+  process_npdu n i src dst p = (n', acts) -> n_hop p = 0 -> forall j d q, ~ In (Fwd j d q) acts.
+Proof.
+  intros n i src dst p n' acts H H0 j d q Hin.
+  destruct (thm_hop_decrement _ _ _ _ _ _ _ _ _ _ H Hin) as [A _]. contradiction.
+Qed.
+
+Lemma thm_local_stays : forall n i src dst p n' acts,
+  process_npdu n i src dst p = (n', acts) -> n_dadr p = None -> forall j d q, ~ In (Fwd j d q) acts.
+Proof.
+  intros n i src dst p n' acts H H0 j d q Hin.
+  destruct (process_npdu_fwd_origin _ _ _ _ _ _ _ _ _ _ H Hin) as (ai & dd & _ & Hd & _). congruence.
+Qed.
+
+Lemma thm_not_back : forall n i src dst p n' acts j d q,
+  process_npdu n i src dst p = (n', acts) -> In (Fwd j d q) acts ->
+  j <> i \/
+  exists ai dnet m, nth_adapter n' i = Some ai /\
+    (n_dadr p = Some (DBcast dnet) \/ exists mm, n_dadr p = Some (DStation dnet mm)) /\
+    find_net n' (Some dnet) = None /\ cache_get (rcache n') (a_net ai) dnet = Some m /\
+    d = LStation m /\ n_dadr q = n_dadr p.
+Proof.
+  intros. destruct (process_npdu_fwd_origin _ _ _ _ _ _ _ _ _ _ H H0) as (ai & dd & Ha & Hd & Hf).
+  apply forward_fwd in Hf. destruct Hf as (_ & _ & _ & _ & _ & _ & [Hj|Hj]); [left; assumption|right].
+  destruct Hj as (dnet & m & Ht & Hn & Hp & Hdd & Hq).
+  apply find_path_sound in Hp. destruct Hp as [a [Hna Hc]].
+  exists a, dnet, m. repeat split; auto.
+  destruct Ht as [Ht|[mm Ht]]; subst; [left; assumption|right; exists mm; assumption].
+Qed.
+
+Lemma thm_not_back_global : forall n i src dst p n' acts j d q,
+  process_npdu n i src dst p = (n', acts) -> In (Fwd j d q) acts -> n_dadr p = Some DGlobal -> j <> i.
+Proof.
+  intros. destruct (thm_not_back _ _ _ _ _ _ _ _ _ _ H H0) as [Hj|Hj]; [assumption|].
+  destruct Hj as (ai & dnet & m & _ & [Hd|[mm Hd]] & _); congruence.
+Qed.
+
+Lemma thm_not_back_last_leg : forall n i src dst p n' acts j d q,
+  process_npdu n i src dst p = (n', acts) -> In (Fwd j d q) acts -> n_dadr q = None -> j <> i.
+Proof.
+  intros. destruct (thm_not_back _ _ _ _ _ _ _ _ _ _ H H0) as [Hj|Hj]; [assumption|].
+  destruct Hj as (ai & dnet & m & _ & [Hd|[mm Hd]] & _ & _ & _ & Hq); congruence.
+Qed.
+
+Lemma thm_not_back_unless_cached : forall n i src dst p n' acts j d q,
+  process_npdu n i src dst p = (n', acts) -> In (Fwd j d q) acts ->
+  (forall ai dnet, nth_adapter n' i = Some ai -> cache_get (rcache n') (a_net ai) dnet = None) -> j <> i.
+Proof.
+  intros. destruct (thm_not_back _ _ _ _ _ _ _ _ _ _ H H0) as [Hj|Hj]; [assumption|].
+  destruct Hj as (ai & dnet & m & Ha & _ & _ & Hc & _). rewrite (H1 _ _ Ha) in Hc. discriminate.
+Qed.
+
+Lemma thm_sadr : forall n i src dst p n' acts j d q,
+  process_npdu n i src dst p = (n', acts) -> In (Fwd j d q) acts ->
+  exists ai inet, nth_adapter n i = Some ai /\ a_net ai = Some inet /\
+                  n_sadr q = Some (match n_sadr p with Some s => s | None => (inet, src) end).
+Proof.
+  intros. destruct (process_npdu_fwd_origin _ _ _ _ _ _ _ _ _ _ H H0) as (ai & dd & Ha & _ & Hf).
+  apply forward_fwd in Hf. destruct Hf as (_ & _ & _ & _ & (inet & Hi & Hs) & _).
+  exists ai, inet. auto.
+Qed.
+
+Lemma thm_fanout : forall n i src dst p n' acts,
+  process_npdu n i src dst p = (n', acts) -> (length (filter is_fwd acts) <= S (length (adapters n)))%nat.
+Proof.
+  intros n i src dst p n' acts H.
+  assert (Hno : forall l, no_fwd l -> filter is_fwd l = []).
+  { induction l as [|a l IH]; intro Hn; [reflexivity|].
+    assert (Hl : no_fwd l) by (intros j d q Hin; eapply Hn; right; eauto).
+    cbn. destruct a; cbn; try (apply IH; exact Hl).
+    exfalso. eapply Hn. left. reflexivity. }
+  assert (Htail : forall nx ai fw, adapters nx = adapters n ->
+     (length (filter is_fwd match n_dadr p with Some dd => if fw : bool then forward nx i ai src p dd else [] | None => [] end)
+      <= S (length (adapters n)))%nat).
+  { intros nx ai fw Hx. destruct (n_dadr p); [|cbn; lia]. destruct fw; [|cbn; lia].
+    etransitivity; [apply filter_len_le|]. rewrite <- Hx. apply forward_fanout. }
+  pose proof (process_npdu_adapters _ _ _ _ _ _ _ H) as Had.
+  unfold process_npdu in H.
+  destruct (nth_adapter n i) as [ai|] eqn:Ea; [|inversion H; subst; cbn; lia].
+  destruct (negb (modelled_config n)); [inversion H; subst; cbn; lia|].
+  match type of H with (if ?s then _ else _) = _ => destruct s end; [inversion H; subst; cbn; lia|].
+  match type of H with context [match ?dec with Err _ => _ | Ok _ => _ end] => destruct dec as [[[pl fw]|]|e] end;
+    [| inversion H; subst; cbn; lia | inversion H; subst; cbn; lia].
+  destruct (n_msg p) as [t|] eqn:Em.
+  - destruct pl; [|inversion H; subst; clear H; apply Htail; assumption].
+    destruct (negb (known_msg t)); [inversion H; subst; cbn; lia|].
+    destruct (t =? 0).
+    + destruct (dec_who_is (n_data p)) as [w|e]; [|inversion H; subst; cbn; lia].
+      match type of H with context [nse_who_is ?a ?b ?c ?dd ?e ?f] => destruct (nse_who_is a b c dd e f) as [n2 ac] eqn:Ew end.
+      destruct (nse_who_is_spec _ _ _ _ _ _ _ _ Ew) as (_ & Hnf & _). inversion H; subst; clear H.
+      rewrite filter_app, (Hno _ Hnf). apply Htail; assumption.
+    + destruct (t =? 1); [|inversion H; subst; cbn; lia].
+      destruct (dec_i_am (n_data p)) as [nets|e]; [|inversion H; subst; cbn; lia].
+      match type of H with context [nse_i_am ?a ?b ?c ?dd ?e] => destruct (nse_i_am a b c dd e) as [n2 ac] eqn:Ew end.
+      destruct (nse_i_am_spec _ _ _ _ _ _ _ Ew) as (_ & _ & _ & Hnf & _). inversion H; subst; clear H.
+      rewrite filter_app, (Hno _ Hnf). apply Htail; assumption.
+  - match type of H with (if ?c then _ else _) = _ => destruct c end.
+    + destruct (negb (apdu_ok (n_data p))); [inversion H; subst; cbn; lia|].
+      inversion H; subst; clear H. cbn [filter is_fwd]. apply Htail; assumption.
+    + inversion H; subst; clear H. apply Htail; assumption.
+Qed.
+
+(* the LAN hands a unicast frame only to the port whose link address it names *)
+Lemma thm_lan_unicast : forall wmac f m, f_dst f = LStation m -> accepts wmac f = true -> wmac = m.
+Proof. intros wmac f m Hd H. unfold accepts in H. rewrite Hd in H. apply mac_eqb_eq in H. congruence. Qed.
+
+Lemma thm_lan_no_echo : forall wmac f, f_dst f = LBcast -> f_src f = wmac -> accepts wmac f = false.
+Proof.
+  intros wmac f Hd Hs. unfold accepts. rewrite Hd, Hs.
+  assert (forall a, mac_eqb a a = true).
+  { induction a as [|x a IH]; cbn; [reflexivity|]. rewrite N.eqb_refl. exact IH. }
+  rewrite H. reflexivity.
+Qed.
